@@ -348,6 +348,12 @@ impl ThetaHashTable {
         hash
     }
 
+    /// Verification hook: what `hash_and_screen` records before screening (a value was offered,
+    /// so the sketch is no longer empty).
+    pub fn verif_mark_offered(&mut self) {
+        self.is_empty = false;
+    }
+
     /// Verification hook: log2 of the current table size.
     pub fn verif_lg_cur_size(&self) -> u8 {
         self.lg_cur_size
